@@ -17,8 +17,8 @@ def run(ctx):
     r, it = M.mc(ctx, "MetaDB_map2.cfg", "map2", {"MaxOps": "= 4"}, INV, PROP, export=True)
     items += M.sample(ctx, it, 2500 if th else 400, 2)
     if th:
-        M.mc(ctx, "MetaDB_map.cfg", "map deep", {"MaxOps": "= 4"}, INV, PROP, timeout=3000, coverage=True)
-        M.mc(ctx, "MetaDB_map2.cfg", "map2 deep", {"MaxOps": "= 6"}, INV, PROP, timeout=3000)
+        M.mc(ctx, "MetaDB_map.cfg", "map deep", {"MaxOps": "= 4"}, INV, PROP, timeout=7200, coverage=True)
+        M.mc(ctx, "MetaDB_map2.cfg", "map2 deep", {"MaxOps": "= 6"}, INV, PROP, timeout=7200)
         # liveness of the flood bound: the unrounded reset time switched back on breaks it
         M.expect_model_violation(ctx, "MetaDB_map2.cfg", "bug reset-unrounded",
                                  {"Bugs": '= {"reset-unrounded"}', "MaxOps": "= 4", "GlobalBudget": "= 0"},
